@@ -87,6 +87,11 @@ class HistGen:
             return (b"h%02d" % i).ljust(r.choice([1100, 2500]), b"z")
         if fam == "tiny":
             return b"t%03d" % r.randrange(0, 400)
+        if fam == "prefix":
+            # keys that are proper prefixes of one another (ordering must break ties by length); with the
+            # 150-byte values this family is given they spread over several leaves
+            c = r.choice([b"k", b"p", b"kq"])
+            return c * r.randrange(0, 40)
         raise ValueError(fam)
 
     def value(self):
@@ -305,6 +310,8 @@ class HistGen:
             if self.p["read_after_every_op"] and cur_path is not None and sh.bucket(cur_path) is not None and handles.get(cur_h, ((), False))[1]:
                 reads(cur_h, sh.bucket(cur_path))
                 self.emit("scan %d %d" % (t, cur_h))
+                if self.p.get("layerc") and self.p.get("file"):
+                    self.emit("pretrees %d" % t)   # the overlay after this edit (Layer T tie)
         if self.p["read_after_every_op"]:
             self.emit("dump %d" % t)
         if r.random() < self.p["p_drop"]:
@@ -606,6 +613,41 @@ def gen_queries(seed, n, pagesize=1024):
 
 
 # ---- C06: rollbacks, failed calls, read-only use ----------------------------------------------
+def gen_prefix_queries(seed, n, pagesize=1024):
+    """C08: keys that are proper prefixes of one another (`k`, `kk`, `kkk`, …) over several leaves; one
+    transaction deletes a contiguous range (so that leaves merge at commit), then the read battery on the
+    committed bucket and inside a further transaction"""
+    r = random.Random(seed)
+    lines = []
+    cases = [(c, nk, i, j) for c in (b"k", b"ab") for nk in (14, 30) for i in range(0, 6) for j in range(i + 1, i + 6)]
+    r.shuffle(cases)
+    for idx, (c, nk, i, j) in enumerate(cases[:n]):
+        keys = [c * m for m in range(1, nk + 1)]
+        lines.append("hist pq%d-%s-n%d-%d-%d" % (idx, c.decode(), nk, i, j))
+        lines.append("cfg pagesize=%d numpages=32 strict=0 populate=0" % pagesize)
+        lines.append("open")
+        lines.append("begin 1 w")
+        lines.append("mkb 1 1 0 %s" % hx(b"q"))
+        for k in keys:
+            lines.append("put 1 1 %s %s" % (hx(k), vtok(b"v" * 200)))
+        lines.append("commit 1")
+        lines.append("begin 2 w")
+        lines.append("getb 2 1 0 %s" % hx(b"q"))
+        live = set(keys)
+        for k in keys[i:j]:
+            lines.append("del 2 1 %s" % hx(k))
+            live.discard(k)
+        read_battery(lines, 2, 1, live, r, 8, 12)
+        lines.append("commit 2")
+        lines.append("file")
+        lines.append("begin 3 r")
+        lines.append("getb 3 1 0 %s" % hx(b"q"))
+        read_battery(lines, 3, 1, live, r, 20, 30)
+        lines.append("drop 3")
+        lines.append("close")
+    return lines
+
+
 def gen_c06(seed, n, pagesize=1024):
     """histories with large rolled-back transactions (incl. bucket deletes), every mutator through
     read-only handles, and the file hashed before / after"""
